@@ -28,6 +28,12 @@ func init() {
 
 func (m *mixed) ID() string { return m.id }
 
+// NondeterministicApp: for C01 the application itself may be the
+// nondeterministic party (Go map iteration order); a divergence whose minimised
+// schedule does not fail again in the confirmation replay is still reported,
+// with that caveat.
+func (m *mixed) NondeterministicApp() bool { return m.id == "C01" }
+
 func (m *mixed) Level() string {
 	if m.id == "C20" {
 		return "fault_enumeration"
